@@ -270,3 +270,46 @@ package ast
 //@   requires [node] a != nil && TreeWF()
 //@   ensures [first C07] fresh(names) && forall nm string :: {has(names, nm)} has(names, nm) == InFirst(a, nm)
 //@   safety C13
+
+// ======================================================================================
+// Walk and the optimizer's rule inlining (C13, C09)
+// ======================================================================================
+
+// IsWalkNode: what Walk is started on and recurses into: expressions, rules, the grammar.
+//@ pred IsWalkNode(e Expression) bool = IsExpr(e) || (is(e, "*Rule") && as(e, "*Rule") != nil) || (is(e, "*Grammar") && as(e, "*Grammar") != nil)
+
+//@ frameset Tree = all ActionExpr.Expr, all AndExpr.Expr, all ChoiceExpr.Alternatives, all Grammar.Rules, all LabeledExpr.Expr, all NotExpr.Expr, all OneOrMoreExpr.Expr, all Rule.Expr, all SeqExpr.Exprs, all ZeroOrMoreExpr.Expr, all ZeroOrOneExpr.Expr, all RecoveryExpr.Expr, all RecoveryExpr.RecoverExpr, all LitMatcher.posValue, all CharClassMatcher.posValue, all CharClassMatcher.Chars, all CharClassMatcher.Ranges, all CharClassMatcher.UnicodeClasses
+//@ frameset Opt = all grammarOptimizer.rule, all grammarOptimizer.optimized, all grammarOptimizer.visitor, all map[string]*Rule, all map[string]map[string]struct{}, all map[string]struct{}
+
+// a visitor may rewrite the tree but keeps it well-formed (assumed for the interface; the
+// optimizer's three visitors are not yet verified against it: see DESIGN C09/C13)
+//@ extern Visitor.Visit(vis Visitor, expr Expression) (w Visitor)
+//@   requires [node] expr == nil || IsWalkNode(expr)
+//@   modifies Tree, Opt
+//@   ensures [wf] TreeWF()
+
+//@ func Walk(v Visitor, expr Expression)
+//@   requires [node C13] v != nil && IsWalkNode(expr) && TreeWF()
+//@   modifies Tree, Opt
+//@   ensures [wf C13] TreeWF()
+// no panics clause: Walk must not panic on any node kind the front-end can build (C13)
+//@   loop#1 invariant [wf] TreeWF() && v != nil
+//@   loop#2 invariant [wf] TreeWF() && v != nil
+//@   loop#3 invariant [wf] TreeWF() && v != nil
+//@   safety C13
+
+// cloneExpr: the copy shares no node with the original (the optimizer mutates nodes in place)
+//@ func cloneExpr(expr Expression) (res Expression)
+//@   requires [node] IsExpr(expr) && TreeWF()
+//@   ensures [fresh C09] fresh(as(res, "*LitMatcher"))
+//@   ensures [kind C09] typeOf(res) == typeOf(expr)
+//@   ensures [wf C09 C13] IsExpr(res) && TreeWF()
+//@   loop#1 invariant [wf] 0 <= i && TreeWF() && forall k int :: 0 <= k && k < len(alts) ==> IsExpr(alts[k])
+//@   loop#2 invariant [wf] 0 <= i && TreeWF() && forall k int :: 0 <= k && k < len(exprs) ==> IsExpr(exprs[k])
+//@   safety C13
+
+//@ func (r *grammarOptimizer) optimizeRule(expr Expression) (res Expression)
+//@   requires [node] r != nil && IsExpr(expr) && TreeWF() && r.ruleUsedByRules != nil && r.ruleUsesRules != nil && RulesWF(r.rules)
+//@   modifies Opt
+//@   ensures [wf C09 C13] IsExpr(res) && TreeWF()
+//@   safety C13
